@@ -1,39 +1,166 @@
 (* C05  Register constraints are an invariant of every checked-operation history.
-   Statements only.  Proved: a register written by a successful checked set satisfies its constraint afterwards (and
-   reads back the value); every refused set / bit operation / block write changes nothing; bit set/clear change
-   exactly the requested bits of unsigned registers and refuse signed, float and mismatched operands; block writes
-   succeed only if every overlapped register validates after overlay.  The lift to arbitrary histories incl. sanitise
-   rests on the correspondence run over long histories (DESIGN.md C05, partial). *)
-From Ufw Require Import Base.Bits Model.RegTable Proof.RegLemmas.
-From Coq Require Import Bool.
+   Statements only (printed by Coq from the lemmas they are closed with); proofs in Proof/RegLemmas.v, Proof/RegInvariant.v; model Model/RegTable.v.
+   [Inv t]: the table is initialised, its entries are ordered and disjoint, every register lies wholly inside one area, all words are 16 bit,
+   and every register whose words decode holds a value that satisfies its constraint.
+   Proved: Inv is preserved by every checked typed operation (set, bit set, bit clear; accepted or refused) and hence by every history of them,
+   and under Inv every value a get delivers satisfies its register's constraint.  Not a theorem (correspondence only, partial): histories that
+   also contain block writes and sanitise (one-step facts about them: refused = unchanged, success = every overlapped register validated). *)
+From Ufw Require Import Base.Bits Model.RegTable Proof.RegLemmas Proof.RegInitLemmas Proof.RegInvariant.
+From Coq Require Import Bool Lia.
 Local Open Scope N_scope.
 
-Theorem C05_checked_set_establishes_constraint : forall t idx v e i a,
-  t_init t = true -> entry_at t idx = Some e -> entry_area t e = Some (i, a) ->
-  e_addr e + tsize (e_type e) <= a_base a + a_size a -> N.of_nat (length (a_words a)) = a_size a ->
-  v_bits v < 2 ^ tbits (e_type e) ->
-  fst (fst (reg_setx t idx v true)) = ASuccess ->
-  let t' := snd (reg_setx t idx v true) in
-  exists cur, reg_get t' idx = ((ASuccess, 0), Some cur) /\ validate (t_during t) e cur = true.
-Proof. exact checked_set_establishes_constraint. Qed.
+(* the invariant survives every history of checked typed operations with well-typed operands *)
+Theorem C05_history_invariant :
+  forall (ops : list cop) (t : table),
+         Inv t -> Forall (fun op : cop => typed (cop_value op)) ops -> Inv (fold_left run_cop ops t).
+Proof. exact (@history_invariant). Qed.
+Print Assumptions C05_history_invariant.
+
+(* after any such history every value a get delivers satisfies the constraint of its register *)
+Theorem C05_history_get :
+  forall (ops : list cop) (t : table) (idx : N) (e : entry) (v : rvalue),
+         Inv t ->
+         Forall (fun op : cop => typed (cop_value op)) ops ->
+         entry_at (fold_left run_cop ops t) idx = Some e ->
+         reg_get (fold_left run_cop ops t) idx = (ASuccess, 0, Some v) -> validate false e v = true.
+Proof. exact (@history_get). Qed.
+Print Assumptions C05_history_get.
+
+(* what the invariant gives a reader *)
+Theorem C05_invariant_means :
+  forall (t : table) (idx : N) (e : entry) (v : rvalue),
+         Inv t -> entry_at t idx = Some e -> reg_get t idx = (ASuccess, 0, Some v) -> validate false e v = true.
+Proof. exact (@inv_get). Qed.
+Print Assumptions C05_invariant_means.
+
+(* one checked set, accepted or refused *)
+Theorem C05_checked_set_preserves :
+  forall (t : table) (idx : N) (v : rvalue) (r : acc) (t' : table),
+         Inv t -> v_bits v < 2 ^ tbits (v_type v) -> reg_setx t idx v true = (r, t') -> Inv t'.
+Proof. exact (@checked_set_preserves). Qed.
+Print Assumptions C05_checked_set_preserves.
+
+(* one bit operation, accepted or refused *)
+Theorem C05_bitop_preserves :
+  forall (clear : bool) (t : table) (idx : N) (v : rvalue) (r : acc) (t' : table),
+         Inv t -> v_bits v < 2 ^ tbits (v_type v) -> reg_bitop clear t idx v = (r, t') -> Inv t'.
+Proof. exact (@bitop_preserves). Qed.
+Print Assumptions C05_bitop_preserves.
+
+(* the frame: storing one register leaves the words (and the placement) of every register it does not meet untouched *)
+Theorem C05_frame :
+  forall (t : table) (e : entry) (i : nat) (a : area) (ws : list N) (e' : entry),
+         entry_area t e = Some (i, a) ->
+         e_addr e + N.of_nat (length ws) <= a_base a + a_size a ->
+         N.of_nat (length (a_words a)) = a_size a ->
+         N.of_nat (length ws) = tsize (e_type e) ->
+         placed t e' ->
+         ~ ranges_meet e e' ->
+         let t' := set_area t i (area_write a (e_addr e - a_base a) ws) in
+         placed t' e' /\ entry_words t' e' = entry_words t e'.
+Proof. exact (@entry_words_frame). Qed.
+Print Assumptions C05_frame.
+
+(* in an ordered table two registers whose word ranges meet are the same register *)
+Theorem C05_distinct_registers_do_not_meet :
+  forall (es : list entry) (e0 : entry),
+         chain e_addr (fun e : entry => tsize (e_type e)) e0 es ->
+         forall e e' : entry, In e (e0 :: es) -> In e' (e0 :: es) -> ranges_meet e e' -> e = e'.
+Proof. exact (@chain_distinct). Qed.
+Print Assumptions C05_distinct_registers_do_not_meet.
+
+(* a register written by a successful checked set satisfies its constraint and reads back the value *)
+Theorem C05_checked_set_establishes_constraint :
+  forall (t : table) (idx : N) (v : rvalue) (e : entry) (i : nat) (a : area),
+         t_init t = true ->
+         entry_at t idx = Some e ->
+         entry_area t e = Some (i, a) ->
+         e_addr e + tsize (e_type e) <= a_base a + a_size a ->
+         N.of_nat (length (a_words a)) = a_size a ->
+         v_bits v < 2 ^ tbits (e_type e) ->
+         fst (fst (reg_setx t idx v true)) = ASuccess ->
+         let t' := snd (reg_setx t idx v true) in
+         exists cur : rvalue, reg_get t' idx = (ASuccess, 0, Some cur) /\ validate (t_during t) e cur = true.
+Proof. exact (@checked_set_establishes_constraint). Qed.
 Print Assumptions C05_checked_set_establishes_constraint.
 
-Theorem C05_refused_set_unchanged : forall t idx v c r t', reg_setx t idx v c = (r, t') -> fst r <> ASuccess -> t' = t.
-Proof. exact setx_refused_unchanged. Qed.
+(* a refused set changes nothing *)
+Theorem C05_refused_set_unchanged :
+  forall (t : table) (idx : N) (v : rvalue) (c : bool) (r : acc) (t' : table),
+         reg_setx t idx v c = (r, t') -> fst r <> ASuccess -> t' = t.
+Proof. exact (@setx_refused_unchanged). Qed.
 Print Assumptions C05_refused_set_unchanged.
-Theorem C05_refused_bitop_unchanged : forall clear t idx v r t', reg_bitop clear t idx v = (r, t') -> fst r <> ASuccess -> t' = t.
-Proof. exact bitop_refused_unchanged. Qed.
+
+(* a refused bit operation changes nothing *)
+Theorem C05_refused_bitop_unchanged :
+  forall (clear : bool) (t : table) (idx : N) (v : rvalue) (r : acc) (t' : table),
+         reg_bitop clear t idx v = (r, t') -> fst r <> ASuccess -> t' = t.
+Proof. exact (@bitop_refused_unchanged). Qed.
 Print Assumptions C05_refused_bitop_unchanged.
-Theorem C05_refused_block_write_unchanged : forall t addr n buf r t',
-  block_write t addr n buf = (r, t') -> fst r <> ASuccess -> t' = t.
-Proof. exact block_write_failure_atomic. Qed.
+
+(* a refused block write changes nothing *)
+Theorem C05_refused_block_write_unchanged :
+  forall (t : table) (addr n : N) (buf : list N) (r : acc) (t' : table),
+         block_write t addr n buf = (r, t') -> fst r <> ASuccess -> t' = t.
+Proof. exact (@block_write_failure_atomic). Qed.
 Print Assumptions C05_refused_block_write_unchanged.
 
-(* bit set / bit clear: exactly the requested bits, through the register's own validator; only unsigned, same type *)
-Theorem C05_bit_ops : forall clear t idx v cur, reg_get t idx = ((ASuccess, 0), Some cur) ->
-  reg_bitop clear t idx v =
-  if negb (rtype_eqb (v_type cur) (v_type v)) || negb (is_unsigned (v_type cur)) then ((AInvalid, idx), t)
-  else reg_setx t idx {| v_type := v_type cur;
-                         v_bits := if clear then N.ldiff (v_bits cur) (v_bits v) else N.lor (v_bits cur) (v_bits v) |} true.
-Proof. exact bitop_spec. Qed.
+(* a block write succeeds only if every overlapped register decodes and validates after the overlay *)
+Theorem C05_block_write_validates :
+  forall (t : table) (addr n : N) (buf : list N) (t' : table),
+         block_write t addr n buf = (ASuccess, 0, t') ->
+         n <> 0 ->
+         (forall x : N, addr <= x < addr + n -> exists (i : nat) (a : area), find_area (t_areas t) x 0 = Some (i, a)) /\
+         first_readonly (t_areas t) addr n = None /\
+         (forall e : entry,
+          In e (t_entries t) ->
+          overlaps e addr n = true ->
+          exists cur : list N,
+            entry_words t e = Some cur /\
+            (let lo := N.max addr (e_addr e) in
+             let hi := N.min (addr + n) (e_addr e + tsize (e_type e)) in
+             let new := blit cur (N.to_nat (lo - e_addr e)) (slice buf (N.to_nat (lo - addr)) (N.to_nat (hi - lo))) in
+             let v := {| v_type := e_type e; v_bits := des_bits (t_be t) (e_type e) new |} in
+             ser_ok v = true /\ validate (t_during t) e v = true)) /\
+         map e_touched (t_entries t') = map (fun e : entry => e_touched e || overlaps e addr n) (t_entries t).
+Proof. exact (@block_write_success_validated). Qed.
+Print Assumptions C05_block_write_validates.
+
+(* bit set / clear change exactly the requested bits of unsigned registers *)
+Theorem C05_bit_ops :
+  forall (clear : bool) (t : table) (idx : N) (v cur : rvalue),
+         reg_get t idx = (ASuccess, 0, Some cur) ->
+         reg_bitop clear t idx v =
+         (if negb (rtype_eqb (v_type cur) (v_type v)) || negb (is_unsigned (v_type cur))
+          then (AInvalid, idx, t)
+          else
+           reg_setx t idx
+             {|
+               v_type := v_type cur;
+               v_bits := if clear then N.ldiff (v_bits cur) (v_bits v) else N.lor (v_bits cur) (v_bits v)
+             |} true).
+Proof. exact (@bitop_spec). Qed.
 Print Assumptions C05_bit_ops.
+
+
+(* the invariant is satisfiable, and a history on it: refused operations leave the old value *)
+Definition ex_area : area := {| a_base := 0; a_size := 4; a_readable := true; a_writeable := true; a_skip := false; a_has_read := true;
+                   a_has_write := true; a_is_mem := true; a_words := [5; 0; 0; 0]; a_first := 0; a_last := 1; a_count := 2 |}.
+Definition ex_table : table :=
+  {| t_init := true; t_during := false; t_be := false; t_areas := [ex_area];
+     t_entries := [ {| e_type := TU16; e_default := 5; e_addr := 0; e_check := CRange 1 10; e_touched := false |};
+                    {| e_type := TU32; e_default := 0; e_addr := 1; e_check := CMax 100; e_touched := false |} ] |}.
+Example C05_invariant_holds_somewhere : Inv ex_table.
+Proof.
+  constructor; try reflexivity.
+  - cbn. lia.
+  - repeat constructor; exists 0%nat, ex_area; (split; [reflexivity|split; [cbn; lia|reflexivity]]).
+  - repeat constructor; cbn; lia.
+  - repeat constructor; intros ws Hw; vm_compute in Hw; injection Hw as <-; intros _; vm_compute; reflexivity.
+Qed.
+Example C05_history_example :
+  let ops := [OpSet 0 {| v_type := TU16; v_bits := 11 |}; OpSet 0 {| v_type := TU16; v_bits := 7 |}; OpBitSet 0 {| v_type := TU16; v_bits := 8 |};
+              OpSet 1 {| v_type := TU32; v_bits := 99 |}] in
+  reg_get (fold_left run_cop ops ex_table) 0 = ((ASuccess, 0), Some {| v_type := TU16; v_bits := 7 |}) /\
+  reg_get (fold_left run_cop ops ex_table) 1 = ((ASuccess, 0), Some {| v_type := TU32; v_bits := 99 |}).
+Proof. split; vm_compute; reflexivity. Qed.
